@@ -62,7 +62,19 @@ def _detail(shape: Shape, hist, i, o, **kw) -> Dict[str, Any]:
     return d
 
 
+def _norm_err(e):
+    """spec error term -> "" (none) | "CODE" (rejected by the analysis) | ["raise", f, cls]"""
+    if e in ("", [], None):
+        return ""
+    if isinstance(e, list) and e and e[0] == "reject":
+        return e[1]
+    return e
+
+
 def evals(hist):
+    for r in hist:
+        if r["op"] == "eval":
+            r["err"] = _norm_err(r["err"])
     return [(i, r) for (i, r) in enumerate(hist) if r["op"] == "eval"]
 
 
@@ -159,4 +171,176 @@ def c04(shape: Shape, hist, obs, realisation: str = "", store_kind: str = "local
                             _detail(shape, hist, i, o, path=p, load=lv, expected_value=v,
                                     realisation=realisation)))
                 return res
+    return res
+
+
+# -- shared: rejected / failing evaluations ------------------------------------------------
+
+def _mutating_ops(o) -> List[Any]:
+    return [op for op in (o.get("ops") or []) if op[0] in ("store", "sync")]
+
+
+def _check_values(prop: str, shape: Shape, hist, obs, realisation: str, also_log: bool = True) -> List[Viol]:
+    """Values as C01, execution counts as C02, and for evaluations the specification rejects:
+    a DDS error, nothing executed, nothing written."""
+    res: List[Viol] = []
+    for (i, rec) in evals(hist):
+        o = obs.get(i, {})
+        if o.get("fatal"):
+            raise RuntimeError("worker failure: %s" % (o["fatal"],))
+        cause = edit_cause(shape, hist, i)
+        tags = ",".join(shape.tags)
+        if isinstance(rec["err"], str) and rec["err"] != "":
+            e = o.get("err")
+            if e is None:
+                res.append(("%s|not-rejected|%s|%s" % (prop, rec["err"], tags),
+                            _detail(shape, hist, i, o, realisation=realisation)))
+                break
+            if not e.get("dds"):
+                res.append(("%s|rejected-with|%s|expected-dds-error=%s|%s" % (prop, e["type"], rec["err"], tags),
+                            _detail(shape, hist, i, o, realisation=realisation)))
+                break
+            if o.get("log") or _mutating_ops(o):
+                res.append(("%s|rejected-but-ran|%s|%s" % (prop, rec["err"], tags),
+                            _detail(shape, hist, i, o, realisation=realisation, ops=_mutating_ops(o))))
+                break
+            continue
+        if rec["err"] != "":
+            continue     # injected failure: C10
+        if o.get("err") is not None:
+            e = o["err"]
+            res.append(("%s|refused|%s|%s|after=%s|%s" % (prop, e["type"], e.get("code"), cause, tags),
+                        _detail(shape, hist, i, o, realisation=realisation)))
+            break
+        exp_res = None if rec["result"] == ["None"] else rec["result"]
+        if o.get("result") != exp_res:
+            stale = any(o.get("result") == r2["result"] for (j, r2) in evals(hist) if j < i)
+            res.append(("%s|%s|%s|%s" % (prop, "stale" if stale else "wrong", cause, tags),
+                        _detail(shape, hist, i, o, realisation=realisation)))
+            break
+        if also_log:
+            exp = Counter(rec["log"])
+            got = Counter(o.get("log") or [])
+            extra = sorted(f for f in got if got[f] > exp.get(f, 0))
+            if extra:
+                res.append(("%s|recomputed|%s|%s" % (prop, cause, tags),
+                            _detail(shape, hist, i, o, realisation=realisation, recomputed=extra)))
+                break
+    return res
+
+
+# -- C09 ---------------------------------------------------------------------------------
+
+def c09(shape: Shape, hist, obs, realisation: str = "") -> List[Viol]:
+    return _check_values("C09", shape, hist, obs, realisation)
+
+
+# -- C10 ---------------------------------------------------------------------------------
+
+def c10(shape: Shape, hist, obs, realisation: str = "") -> List[Viol]:
+    res: List[Viol] = []
+    for (i, rec) in evals(hist):
+        o = obs.get(i, {})
+        if o.get("fatal"):
+            raise RuntimeError("worker failure: %s" % (o["fatal"],))
+        if isinstance(rec["err"], list) and rec["err"][0] == "raise":
+            (_, f, cls) = rec["err"]
+            where = "%s,%s" % (role(shape, f), cls)
+            e = o.get("err")
+            if e is None:
+                res.append(("C10|swallowed|%s" % where, _detail(shape, hist, i, o, realisation=realisation)))
+                break
+            if not e.get("injected"):
+                res.append(("C10|not-same-object|%s|got=%s" % (where, e["type"]),
+                            _detail(shape, hist, i, o, realisation=realisation)))
+                break
+            stores = [op for op in (o.get("ops") or []) if op[0] == "store"]
+            syncs = [op for op in (o.get("ops") or []) if op[0] == "sync"]
+            if syncs:
+                res.append(("C10|paths-committed|%s" % where,
+                            _detail(shape, hist, i, o, realisation=realisation, sync=syncs)))
+                break
+            # blobs are self-describing terms: the stored values name their function
+            stored_funs = sorted(op[2][0] for op in stores if isinstance(op[2], list) and op[2])
+            exp_funs = sorted(c[1] for c in rec["stored"])
+            if stored_funs != exp_funs:
+                res.append(("C10|stored-blobs|%s|expected=%s|got=%s" % (where, exp_funs, stored_funs),
+                            _detail(shape, hist, i, o, realisation=realisation)))
+                break
+            if o.get("ctx_clean") is False:
+                res.append(("C10|context-left-active|%s" % where, _detail(shape, hist, i, o, realisation=realisation)))
+                break
+            if Counter(o.get("log") or []) != Counter(rec["log"]):
+                res.append(("C10|exec-log|%s" % where, _detail(shape, hist, i, o, realisation=realisation)))
+                break
+            continue
+        if rec["err"] != "":
+            continue
+        # a normal evaluation (before or after a failed one)
+        after_fail = any(isinstance(r2["err"], list) for (j, r2) in evals(hist) if j < i)
+        tag = "after-failure" if after_fail else "before-failure"
+        if o.get("err") is not None:
+            res.append(("C10|next-eval-refused|%s|%s" % (tag, o["err"]["type"]),
+                        _detail(shape, hist, i, o, realisation=realisation)))
+            break
+        if o.get("result") != rec["result"]:
+            res.append(("C10|next-eval-wrong-value|%s" % tag, _detail(shape, hist, i, o, realisation=realisation)))
+            break
+        exp = Counter(rec["log"])
+        got = Counter(o.get("log") or [])
+        if got != exp and after_fail:
+            kind = "re-executed-completed-subresult" if any(got[f] > exp.get(f, 0) for f in got) else "served-uncompleted"
+            res.append(("C10|next-eval-exec|%s|%s" % (tag, kind), _detail(shape, hist, i, o, realisation=realisation)))
+            break
+    return res
+
+
+# -- C15 ---------------------------------------------------------------------------------
+
+def c15(shape: Shape, hist, obs, realisation: str = "") -> List[Viol]:
+    res: List[Viol] = []
+    key_of: Dict[str, str] = {}
+    for (i, rec) in evals(hist):
+        o = obs.get(i, {})
+        if o.get("fatal"):
+            raise RuntimeError("worker failure: %s" % (o["fatal"],))
+        st = rec.get("stages", 5)
+        if rec["err"] != "":
+            continue
+        if o.get("err") is not None:
+            res.append(("C15|refused|stages=%d|%s" % (st, o["err"]["type"]), _detail(shape, hist, i, o, realisation=realisation)))
+            break
+        exp_res = None if rec["result"] == ["None"] else rec["result"]
+        if o.get("result") != exp_res:
+            res.append(("C15|wrong-value|stages=%d" % st, _detail(shape, hist, i, o, realisation=realisation)))
+            break
+        stores = [op for op in (o.get("ops") or []) if op[0] == "store"]
+        syncs = [op for op in (o.get("ops") or []) if op[0] == "sync"]
+        if st < 3 and (o.get("log") or stores or syncs):
+            res.append(("C15|dry-run-not-pure|stages=%d|ran=%s,stored=%d,committed=%d" % (st, bool(o.get("log")), len(stores), len(syncs)),
+                        _detail(shape, hist, i, o, realisation=realisation)))
+            break
+        if st < 5 and syncs:
+            res.append(("C15|committed-without-commit-stage|stages=%d" % st, _detail(shape, hist, i, o, realisation=realisation)))
+            break
+        if st >= 3:
+            exp = Counter(rec["log"])
+            got = Counter(o.get("log") or [])
+            if any(got[f] > exp.get(f, 0) for f in got):
+                res.append(("C15|recomputed|stages=%d" % st, _detail(shape, hist, i, o, realisation=realisation)))
+                break
+            if len(stores) != len(rec["stored"]) and shape.name:
+                res.append(("C15|stored-blobs|stages=%d|expected=%d|got=%d" % (st, len(rec["stored"]), len(stores)),
+                            _detail(shape, hist, i, o, realisation=realisation)))
+                break
+        # signatures of the full evaluations are those of the unrestricted history
+        if syncs:
+            real = dict((p, k) for (p, k) in syncs[-1][1])
+            for (p, c) in rec["req"]:
+                cid = cone_id(c)
+                if p in real:
+                    if cid in key_of and key_of[cid] != real[p]:
+                        res.append(("C15|sig-changed|after-restricted-run", _detail(shape, hist, i, o, realisation=realisation)))
+                        return res
+                    key_of.setdefault(cid, real[p])
     return res
